@@ -384,7 +384,8 @@ def gen_categorical(rng):
   return dict(num_buckets=rng.choice([1, 2, 3, 4]), units=rng.choice([1, 1, 2]), output_min=b[0], output_max=b[1],
               monotonicities=rng.choice([None, None, [(0, 1)], [[0, 1]], [(0, 1), (1, 2)], [(0, 1), (1, 0)],
                                          [(0, 1), (1, 2), (2, 1)], [(0, 1), (2, 3), (3, 2)], [(0, 0)], [(0, 7)], (0, 1), [(0, 1, 2)],
-                                         [(0, 1), (0, 2), (1, 3), (2, 3)], [(0, 1), (1, 2), (2, 0)], [(0, 1), (1, 1)], [(2, 1), (1, 0)]]),
+                                         [(0, 1), (0, 2), (1, 3), (2, 3)], [(0, 1), (1, 2), (2, 0)], [(0, 1), (1, 1)], [(2, 1), (1, 0)],
+                                         [(0, 1.0)], [(0, 1.5)], [(0.0, 1)], [(0, 1), (1, 2.0)], [(False, True)], [(None, 1)]]),
               kernel_initializer=rng.choice(["uniform", "constant", "zeros"]), default_input_value=rng.choice([None, -1]),
               split_outputs=rng.choice([False, False, True]), dtype=rng.choice(["float32", "float32", "float64"]))
 
@@ -457,8 +458,11 @@ def _valid_linear(rng):
     c["monotonic_dominances"] = rng.choice([[(0, 1)], [(1, 0)], [(0, 1), (0, 1)]])
   elif same01 and k < 0.7:
     c["range_dominances"] = [(0, 1)]
-    c["input_min"] = rng.choice([[0.0] * n, [0.0, -1.0, 0.0][:n], [0.5] * n])
-    c["input_max"] = rng.choice([[1.0] * n, [2.0, 1.0, 1.0][:n], [0.5, 1.0, 1.0][:n]])
+    # the dimension 2 (n = 3) is outside the range dominance: empty range (input_min == input_max, the scaling
+    # 0 of F-C06-a), missing bounds, mixtures
+    c["input_min"] = rng.choice([[0.0] * n, [0.0, -1.0, 0.0][:n], [0.5] * n, [0.0, 0.0, 1.0][:n], [0.0, 0.0, None][:n],
+                                 [0.0, -1.0, 2.0][:n]])
+    c["input_max"] = rng.choice([[1.0] * n, [2.0, 1.0, 1.0][:n], [0.5, 1.0, 1.0][:n], [1.0, 2.0, 2.0][:n], [1.0, 1.0, None][:n]])
   elif k < 0.9:
     c["input_min"] = rng.choice([[0.0] * n, [0.0] + [None] * (n - 1), [0.0] + ["none"] * (n - 1)])
     c["input_max"] = rng.choice([None, [1.0] * n])
@@ -470,7 +474,9 @@ def _valid_cat(rng):
   b = rng.choice([(None, None), (0.0, 1.0), (-1.0, 2.0), (None, 1.0), (0.0, None), (0.0, 0.0)])
   pairs = rng.choice([None, [(0, 1)], [[0, 1]], [(0, 1), (1, 2)], [(0, 1), (0, 1)], [(0, 1), (1, 2), (2, 1)], [(0, 1), (2, 3), (3, 2)],
                       [(1, 0)], [(0, 1), (1, 0)], [(0, 1), (0, 2), (1, 3), (2, 3)], [(2, 3), (1, 2), (0, 1)], [(0, 2), (1, 2), (0, 1)],
-                      [(3, 2), (2, 1), (1, 0)], [(1, 1)], [(0, 1), (1, 2), (2, 3), (3, 1)]])
+                      [(3, 2), (2, 1), (1, 0)], [(1, 1)], [(0, 1), (1, 2), (2, 3), (3, 1)],
+                      # indices that are not Python ints (ValueError since ab2e39a) / bools (ints: accepted)
+                      [(0, 1.0)], [(0, 0.5)], [(1.0, 0)], [(0, 1), (0.0, 1.0)], [(False, True)], [(0, True)]])
   if pairs and max(max(p) for p in pairs) >= nb:
     pairs = [(0, 1)]
   return dict(num_buckets=nb, units=rng.choice([1, 2]), output_min=b[0], output_max=b[1], monotonicities=pairs,
@@ -821,7 +827,8 @@ def run_must_reject(ctx):
   build: lattice size < 2, a dimension both monotone and unimodal, trust on a non-monotone main
   feature, a feature used as main and conditional (also within ONE trust), dominance between
   non-monotone features, output_min > output_max, unsorted keypoints, cyclic together with
-  monotonicity, circular categorical monotonicity pairs (cycle detection in the categorical partial
+  monotonicity, categorical bucket indices that are not integers (fix ab2e39a), circular categorical
+  monotonicity pairs (cycle detection in the categorical partial
   order is an anchored mechanism of the property: a 2-cycle, a self pair, a k-cycle in any rotation, a
   cycle behind a root or in front of a tail, with repeated pairs), and the configurations whose late
   failure was repaired by f7753e0 / f995047 / 4a8f232: a joint unimodality with a dimension outside the
@@ -908,6 +915,18 @@ def run_must_reject(ctx):
         ("CategoricalCalibrationConstraints", "circular-pairs", dict(monotonicities=list(pairs), **bounds)),
         ("CategoricalCalibration", "circular-pairs-behind-root", dict(num_buckets=4, monotonicities=[(0, 1), (1, 2), (2, 1)])),
         ("CategoricalCalibration", "self-pair", dict(num_buckets=nb, monotonicities=[(0, 1)] * rng.randint(0, 1) + [(nb - 1, nb - 1)])),
+    ]
+    # bucket indices that are not integers (fix ab2e39a): integral and non-integral floats, in either position,
+    # after valid pairs, None
+    bad = rng.choice([float(rng.randrange(nb)), rng.randrange(nb) + 0.5, rng.randrange(nb) / 4.0 + 0.25, None])
+    other = rng.randrange(nb)
+    if isinstance(bad, float) and bad == other:
+      other = (other + 1) % nb
+    badpair = (bad, other) if rng.random() < 0.5 else (other, bad)
+    chain = [(i, i + 1) for i in range(rng.randint(0, nb - 2))]
+    cases += [
+        ("CategoricalCalibration", "non-integer-bucket-index", dict(num_buckets=nb + 1, monotonicities=chain + [badpair])),
+        ("CategoricalCalibrationConstraints", "non-integer-bucket-index", dict(monotonicities=[badpair] + chain)),
     ]
     # joint unimodalities whose late failure was repaired
     ju_rank = rng.randint(1, 3)
